@@ -100,7 +100,8 @@ theorem newMap_ok_owns (r : Req) (f : Flags) (page : Nat) (k : Kernel) (sc : Scr
 theorem dropMap_erases (k : Kernel) (m : XMap) (page : Nat) :
     (dropMap k m page).maps = (ownMaps m).foldl List.erase k.maps ∧
     (dropMap k m page).grants = (ownGrants page m).foldl List.erase k.grants := by
-  cases m <;> simp [dropMap, ownMaps, ownGrants, munmapCall, unmapRange, grantUnmapCall]
+  cases m <;> simp only [dropMap, ownMaps, ownGrants, munmapCall, unmapRange, grantUnmapCall, List.foldl_cons, List.foldl_nil] <;>
+    (repeat' split) <;> simp_all [List.erase_of_not_mem]
 
 theorem perm_flatMap_erase {α β} [BEq α] [LawfulBEq α] (f : α → List β) (l : List α) (e : α) (he : e ∈ l) :
     (l.flatMap f).Perm (f e ++ (l.erase e).flatMap f) := by
@@ -187,6 +188,59 @@ theorem live_region_still_mapped (page : Nat) (ops : List Op) (e : Nat × Region
   have := (run_inv page ops {} (init_inv page)).1
   exact this.mem_iff.2 (List.mem_flatMap.2 ⟨e, he, hx⟩)
 
+
+/-! ### exactly once: over any history nothing is ever released twice -/
+theorem dropMap_no_fault (k : Kernel) (m : XMap) (page : Nat)
+    (hm : ∀ x ∈ ownMaps m, x ∈ k.maps) (hg : ∀ x ∈ ownGrants page m, x ∈ k.grants) :
+    (dropMap k m page).faults = k.faults := by
+  cases m with
+  | unix a s => exact (munmapCall_held (hm _ (by simp [ownMaps]))).1
+  | «foreign» a s => exact (munmapCall_held (hm _ (by simp [ownMaps]))).1
+  | grantAdvance a ms idx rs =>
+    simp only [dropMap, unmapRange]
+    have a1 := munmapCall_held (k := k) (a := a) (s := ms) (hm _ (by simp [ownMaps]))
+    have a2 := grantUnmapCall_held (k := munmapCall k a ms) (i := idx) (c := (pages rs page).1)
+      (by rw [a1.2]; exact hg _ (by simp [ownGrants]))
+    rw [a2.1, a1.1]
+  | grantOnDemand => rfl
+
+theorem step_no_fault (page : Nat) (s : St) (op : Op) (h : Inv page s) :
+    (step page s op).k.faults = s.k.faults := by
+  cases op with
+  | new id r sc =>
+    simp only [step]
+    by_cases hfind : (s.live.find? (·.1 == id)).isSome = true
+    · rw [if_pos hfind]
+    · rw [if_neg hfind]
+      have hf := fromRange_no_fault r page s.k sc
+      generalize hx : fromRange r page s.k sc = x at hf
+      obtain ⟨o, k', sc'⟩ := x
+      cases o <;> simpa using hf
+  | drop id =>
+    simp only [step]
+    cases he : s.live.find? (·.1 == id) with
+    | none => rfl
+    | some e =>
+      have hmem : e ∈ s.live := List.mem_of_find?_eq_some he
+      simp only
+      apply dropMap_no_fault
+      · intro x hx; exact h.1.mem_iff.2 (List.mem_flatMap.2 ⟨e, hmem, hx⟩)
+      · intro x hx; exact h.2.mem_iff.2 (List.mem_flatMap.2 ⟨e, hmem, hx⟩)
+
+/-- **unmapped exactly once**: over any history of constructions and drops — any requests, any failing system calls,
+    any drop order — the library never releases a range or a grant mapping it does not hold (no second `munmap`,
+    no second unmap ioctl) -/
+theorem run_no_fault (page : Nat) (ops : List Op) (s : St) (h : Inv page s) :
+    (run page s ops).k.faults = s.k.faults := by
+  induction ops generalizing s with
+  | nil => rfl
+  | cons op rest ih =>
+    show (run page (step page s op) rest).k.faults = s.k.faults
+    rw [ih _ (step_inv page s op h), step_no_fault page s op h]
+
+theorem history_no_fault (page : Nat) (ops : List Op) : (run page {} ops).k.faults = 0 :=
+  run_no_fault page ops {} (init_inv page)
+
 def exReq (w : Flags) (base : Nat) : Req :=
   { size := 0x2000, file := some { fileLen := 0x100000, start := 0 }, prot := none, flags := none, xenFlags := w, xenData := 1, guestBase := base }
 example : (run 4096 {} [.new 0 (exReq 2 0x5000) [], .new 1 (exReq 1 0x9000) [], .new 2 (exReq 2 0x5000) [true, false],
@@ -202,3 +256,6 @@ end VmMem
 #print axioms VmMem.C12x.run_inv
 #print axioms VmMem.C12x.all_dropped_nothing_mapped
 #print axioms VmMem.C12x.live_region_still_mapped
+#print axioms VmMem.C12x.dropMap_no_fault
+#print axioms VmMem.C12x.run_no_fault
+#print axioms VmMem.C12x.history_no_fault
